@@ -30,6 +30,8 @@ func c01(c *Ctx) {
 	c01entry(c)
 	c01wrappers(c)
 	c01users(c)
+	// the rolling window whose sums the decision is computed from (same structure rules as C16.R5)
+	c16windowAs(c, "C01.R7")
 }
 
 func paramByType(f *ssa.Function, ts string) *ssa.Parameter { return paramOfType(f, ts) }
